@@ -1,7 +1,7 @@
 """C01 - parsing arbitrary bytes is memory-safe and always returns."""
 import random, struct
 from .common import hx, crashed, crash_sig
-from . import frames as F, rtgen, c04, c12
+from . import frames as F, rtgen, c04, c08, c12
 
 ID = "C01"
 PROP_FILE = "Properties/Properties_C01.v"
@@ -28,7 +28,7 @@ def perturb(rng, fr, positions):
     out = []
     for p in positions:
         if p < len(fr):
-            for v in (0, 1, 254, 255, (fr[p] + 1) & 255, (fr[p] - 1) & 255, len(fr) & 255, max(0, len(fr) - p - 1) & 255):
+            for v in (0, 1, 0x3f, 0x40, 0x7f, 0x80, 0xc0, 254, 255, (fr[p] + 1) & 255, (fr[p] - 1) & 255, len(fr) & 255, max(0, len(fr) - p - 1) & 255):
                 b = bytearray(fr); b[p] = v
                 out.append(bytes(b))
     return out
@@ -86,6 +86,8 @@ def gen_cases(tier, seed):
                     for els in ([F.el(num, full[:k])], [F.el(0, b"x"), F.el(num, full[:k])], [F.el(num, full[:k]), F.el(0, b"x")]):
                         fr = F.mgmt(rng, st, els, ordered=False)
                         cases.append("mgmt 0 " + hx(fr)); n_elcut += 1
+    # suite counts against suites present, incl. counts whose byte length wraps 16 bits
+    cases += c08.count_cases(rng)
     # radiotap headers and tag buffers
     for _ in range(300 if q else 6000):
         h = rtgen.rtap_single(rng.getrandbits(23), rng) if rng.random() < 0.5 else rtgen.rtap_multi(rng)
